@@ -112,7 +112,12 @@ func (t Token) String() string {
 	case CommentToken:
 		return "<!--" + escapeCommentString(t.Data) + "-->"
 	case DoctypeToken:
-		return "<!DOCTYPE " + EscapeString(t.Data) + ">"
+		d := EscapeString(t.Data)
+		if d != "" && strings.IndexByte(" \t\n\f", d[0]) >= 0 {
+			// The tokenizer skips white space after "<!DOCTYPE".
+			d = "&#" + strconv.Itoa(int(d[0])) + ";" + d[1:]
+		}
+		return "<!DOCTYPE " + d + ">"
 	}
 	return "Invalid(" + strconv.Itoa(int(t.Type)) + ")"
 }
